@@ -296,6 +296,9 @@ func forEachCorpusDoc(c *fx.Ctx, o corpusOpts, visit func(doc []ev.E, cls string
 		}
 	}
 
+	// 2b. pair sweep
+	pairSweep(c, o, visit)
+
 	// 3. array sweep
 	lengths := []int{}
 	for n := 0; n <= 20; n++ {
@@ -359,6 +362,27 @@ func forEachCorpusDoc(c *fx.Ctx, o corpusOpts, visit func(doc []ev.E, cls string
 					visit(cx.Wrap(f...), "array:"+k.Name+":"+formName(f))
 				}
 			}
+		}
+	}
+}
+
+// pairSweep: every ordered pair of representatives as two consecutive list elements.
+func pairSweep(c *fx.Ctx, o corpusOpts, visit func(doc []ev.E, cls string)) {
+	reps := gen.Representatives()
+	if o.customText {
+		reps = append(reps, []ev.E{ev.ECustomText(4, "ct")}, []ev.E{ev.ECBegin(events.ArrayTypeCustomText, 4), ev.EChunk(3, true), ev.EData([]byte("fir")), ev.EChunk(2, false), ev.EData([]byte("st"))})
+	}
+	for _, a := range reps {
+		if !c.Take() {
+			continue
+		}
+		for _, b := range reps {
+			doc := []ev.E{ev.EBD(), ev.EV(0), ev.EList()}
+			doc = append(doc, a...)
+			doc = append(doc, b...)
+			doc = append(doc, ev.EEnd(), ev.EED())
+			c.Add("pair_docs", 1)
+			visit(doc, "pair:"+valueClass(a[0])+"+"+valueClass(b[0]))
 		}
 	}
 }
